@@ -388,7 +388,7 @@ def gen(seed, charsigned, n, nargs=4, prefix='f'):
 #   `return e;` (ret conv(e,RET))               exprassign to the return type
 #   `for (init; c; step) body`  (for INIT COND STEP BODY), a missing clause is (skip) / (none)
 STMT_KINDS = ['decl', 'decl-init', 'set', 'opset', 'inc', 'dec', 'expr', 'ret', 'block', 'if', 'ifelse', 'while',
-              'do', 'for', 'break', 'continue', 'skip', 'switch', 'case', 'default', 'call']
+              'do', 'for', 'break', 'continue', 'skip', 'switch', 'case', 'default', 'call', 'adecl', 'aload', 'astore']
 OPSET = ['mul', 'div', 'mod', 'add', 'sub', 'shl', 'shr', 'and', 'or', 'xor']
 # which jump statements may be generated: 0 none, 1 in a loop, 2 in a switch outside any loop (the `continue` of a
 # switch inside a loop belongs to the loop), 3 in a switch inside a loop
@@ -423,6 +423,9 @@ class Gen2:
         self.hist = {}
         self.acc = None                       # an unsigned accumulator updated in loop bodies and folded into the result
         self.callees = []                     # stage D: (name, ret, ptys, firstarg) of the functions that may be called
+        self.arrays = True                    # stage E switch
+        self.arrs = {}                        # stage E: array variable -> number of elements; (k, j) in self.init:
+                                              # element j of array k certainly holds a value
         self.g = Gen(rng, self.vtys)
 
     def count(self, k):
@@ -430,9 +433,9 @@ class Gen2:
 
     def expr(self, scope, depth=None, risky=0.04):
         r = self.rng
-        ok = [k for k in scope if k in self.init]
+        ok = [k for k in scope if k in self.init and k not in self.arrs]
         if r.random() < risky:
-            ok = list(scope)                  # may read an indeterminate object: the C semantics says `ub`
+            ok = [k for k in scope if k not in self.arrs]   # may read an indeterminate object: the C semantics says `ub`
         self.g.vars = ok
         if not ok:
             # nothing to read: a plain constant (constant-only operator trees are mostly undefined or folded natively)
@@ -447,7 +450,91 @@ class Gen2:
         return len(self.vtys) - 1
 
     def assignable(self, scope):
-        return [k for k in scope if k not in self.ro]
+        return [k for k in scope if k not in self.ro and k not in self.arrs]
+
+    def locals_sx(self, np_):
+        """the list of local types of the `fn2` line: `T` or `(T N)` for an array"""
+        return ' '.join('(%s %d)' % (t, self.arrs[np_ + j]) if np_ + j in self.arrs else t
+                        for j, t in enumerate(self.vtys[np_:]))
+
+    def index(self, scope, n, need_init, k):
+        """an index expression for an array of n elements: (source tree, element number or None)"""
+        r = self.rng
+        x = r.random()
+        js = [j for j in range(n) if (k, j) in self.init] if need_init else list(range(n))
+        if x < 0.55 and js:
+            j = r.choice(js)
+            return ('K', j, str(j), True, ''), j
+        full = all((k, j) in self.init for j in range(n))
+        if x < 0.93 and (full or not need_init):
+            # (unsigned)(e) % n  or  e & (n-1): in range whatever e is
+            src, _ = self.expr(scope, 1)
+            if n & (n - 1) == 0 and r.random() < 0.4:
+                return ('B', 'and', ('C', 'u', src), ('K', n - 1, str(n - 1), True, '')), None
+            return ('B', 'mod', ('C', r.choice(['u', 'ul', 'us', 'uc']), src), ('K', n, '%du' % n, True, 'u')), None
+        if x < 0.97:
+            j = r.randrange(0, n)
+            return ('K', j, str(j), True, ''), j      # possibly an element without a value
+        src, _ = self.expr(scope, 1)                  # anything: mostly out of bounds, the C semantics says `ub`
+        return src, None
+
+    def aload(self, scope, k):
+        """`x = a[i];` into an assignable scalar (none in scope: a new one is declared first)"""
+        r = self.rng
+        t, n = self.vtys[k], self.arrs[k]
+        av = self.assignable(scope)
+        pre = []
+        if not av or r.random() < 0.25:
+            dt = r.choice(TYS)
+            d = self.newvar(dt)
+            scope.append(d)
+            self.count('decl')
+            pre = [('%s p%d;' % (CNAME[dt], d), '(decl %d %s)' % (d, dt))]
+        else:
+            d = r.choice(av)
+            dt = self.vtys[d]
+        isrc, j = self.index(scope, n, True, k)
+        self.init.add(d)
+        self.count('aload')
+        return pre + [('p%d = p%d[%s];' % (d, k, ctext(isrc)),
+                       '(aload %d %s %d %s %d %s)' % (d, dt, k, t, n, sx(parse(isrc, self.vtys))))]
+
+    def array(self, scope):
+        """stage E: `T a[N];` (followed by stores to some or all elements), `x = a[i];`, `a[i] = e;`"""
+        r = self.rng
+        avail = [k for k in scope if k in self.arrs]
+        av = self.assignable(scope)
+        x = r.random()
+        if not avail or x < 0.25:
+            t = r.choice(TYS)
+            n = r.choice([1, 2, 2, 3, 4, 4, 5, 8])
+            k = self.newvar(t)
+            self.arrs[k] = n
+            scope.append(k)
+            self.count('adecl')
+            out = [('%s p%d[%d];' % (CNAME[t], k, n), '(adecl %d %s %d)' % (k, t, n))]
+            fill = r.random()
+            for j in range(n):
+                if fill < 0.75 or r.random() < 0.5:
+                    src, e = self.expr(scope, 1)
+                    self.init.add((k, j))
+                    self.count('astore')
+                    out.append(('p%d[%d] = %s;' % (k, j, ctext(src)),
+                                '(astore %d %s %d (c i %d) %s)' % (k, t, n, j, sx(conv(e, t)))))
+            for _ in range(r.choice([0, 1, 1, 2])):
+                out += self.aload(scope, k)
+            return out
+        k = r.choice(avail)
+        t, n = self.vtys[k], self.arrs[k]
+        if x < 0.68 and av:
+            return self.aload(scope, k)
+        isrc, j = self.index(scope, n, False, k)
+        src, e = self.expr(scope)
+        if j is not None:
+            self.init.add((k, j))
+        self.count('astore')
+        return [('p%d[%s] = %s;' % (k, ctext(isrc), ctext(src)),
+                 '(astore %d %s %d %s %s)' % (k, t, n, sx(parse(isrc, self.vtys)), sx(conv(e, t))))]
 
     # every generator returns (list of (ctext, tree), terminated)
     def call(self, scope):
@@ -480,6 +567,8 @@ class Gen2:
         r = self.rng
         if self.callees and r.random() < 0.25:
             return self.call(scope)
+        if self.arrays and r.random() < (0.22 if any(k in self.arrs for k in scope) else 0.07):
+            return self.array(scope)
         x = r.random()
         av = self.assignable(scope)
         if x < 0.22 or not av:
@@ -838,7 +927,7 @@ def gen2(seed, charsigned, n, nargs=4, prefix='g', level='C'):
         name = '%s%d' % (prefix, idx)
         params = ', '.join('%s p%d' % (CNAME[t], i) for i, t in enumerate(ptys)) or 'void'
         c = '%s %s(%s) { %s }' % (CNAME[ret], name, params, ' '.join(x for x, _ in items))
-        s = '(fn2 %s %s (%s) (%s) (block %s))' % (name, ret, ' '.join(ptys), ' '.join(g.vtys[np_:]),
+        s = '(fn2 %s %s (%s) (%s) (block %s))' % (name, ret, ' '.join(ptys), g.locals_sx(np_),
                                                  ' '.join(t for _, t in items))
         res.append((c, s, name, _args(rng, ptys, nargs), g.hist))
     return res
@@ -883,7 +972,7 @@ def gen3(seed, charsigned, n, nargs=4, prefix='h'):
                 items.append(g.ret(scope))
             params = ', '.join('%s p%d' % (CNAME[t], i) for i, t in enumerate(ptys)) or 'void'
             c = '%s %s(%s) { %s }' % (CNAME[ret], name, params, ' '.join(x for x, _ in items))
-            s = '(fn2 %s %s (%s) (%s) (block %s))' % (name, ret, ' '.join(ptys), ' '.join(g.vtys[np_:]),
+            s = '(fn2 %s %s (%s) (%s) (block %s))' % (name, ret, ' '.join(ptys), g.locals_sx(np_),
                                                      ' '.join(t for _, t in items))
             defined.append((name, ret, ptys, s))
             evalsx = '(prog %s)' % ' '.join(d[3] for d in defined)
